@@ -20,7 +20,7 @@ def compare(op, impl, model):
     forward-error bound of the float computation); the implementation prints the float it computed (hex).  Accept iff
     |impl - exact| <= rel * |exact| (+1e-37 for flush-to-zero).  Everything else is compared literally."""
     kind = op.split(" ", 1)[0]
-    if kind not in ("apply", "undo", "eff", "apply1", "apply2", "undo1", "undo2"):
+    if kind not in ("apply", "undo", "eff", "apply1", "apply2", "undo1", "undo2", "acf"):
         return impl == model
     a, b = impl.split(), model.split()
     if len(a) != len(b):
